@@ -90,7 +90,7 @@ theorem cmdServerNick_clean {c c' : Ctx} {sid : Id} {m : IrcMsg} (hc : CCtx c) (
             have n1 : CCtx { c with st := st1 } := hc.setSt (hI.createSession hcs)
             have n2 : CCtx c2 := n1.modS hm2 (fun _ hs => by
               unfold updateIrcPrefix; clean_rec
-              all_goals exact clean_takeChars (clean_of_param hp3 hm) _)
+              all_goals exact clean_takeChars (clean_firstWord (clean_of_param hp3 hm)) _)
             exact n2.setSt (n2.inv.same rfl rfl rfl rfl rfl)
 
 /-! ### JOIN / PART -/
